@@ -39,6 +39,37 @@ class Lock:
         fcntl.flock(self.f, fcntl.LOCK_UN)
 
 
+def norm_source(path):
+    """file content with comments and whitespace removed (so that reformatting is not drift)"""
+    try:
+        txt = open(path, encoding="utf-8", errors="replace").read()
+    except OSError:
+        return ""
+    txt = re.sub(r"/\*.*?\*/", "", txt, flags=re.S)
+    txt = re.sub(r"//[^\n]*", "", txt)
+    return re.sub(r"\s+", "", txt)
+
+
+def source_drift(prop):
+    """names of the anchored source files of this property whose normalised content differs from the
+    tree the models were written against (tools/source_hashes.json)."""
+    hp = os.path.join(ROOT, "tools", "source_hashes.json")
+    if not os.path.exists(hp):
+        return []
+    pinned = json.load(open(hp))
+    files = []
+    for line in open(os.path.join(ROOT, "properties.jsonl")):
+        pr = json.loads(line)
+        if pr["id"] == prop:
+            files = pr["anchors"]["files"]
+    changed = []
+    for f in files:
+        h = hashlib.sha256(norm_source(os.path.join("/repo", f)).encode()).hexdigest()
+        if pinned.get(f) != h:
+            changed.append(f)
+    return changed
+
+
 def build_harness():
     lock = os.path.join(HARN, "Cargo.lock")
     src = "/repo/Cargo.lock"
@@ -214,14 +245,18 @@ def match_known(known, kind, case):
     return None
 
 
-def run_correspondence(harness, prop, tier, seed, outdir):
+def run_correspondence(harness, prop, tier, seed, outdir, scale=1):
     os.makedirs(outdir, exist_ok=True)
     for fn in ("cases.txt", "impl.txt", "model.txt", "stats.json", "current_case.txt", "hang.txt"):
         p = os.path.join(outdir, fn)
         if os.path.exists(p):
             os.remove(p)
     corpus = os.path.join(ROOT, "corpus", prop + ".txt")
-    rc, out = sh([harness, "gen", prop, tier, str(seed), outdir, corpus], timeout=7200)
+    env_scale = dict(ENV)
+    if scale > 1:
+        env_scale["VERIF_SCALE"] = str(scale)
+    p0 = subprocess.run([harness, "gen", prop, tier, str(seed), outdir, corpus], env=env_scale, stdout=subprocess.PIPE, stderr=subprocess.STDOUT, timeout=7200)
+    rc, out = p0.returncode, p0.stdout.decode("utf-8", "replace")
     if rc != 0:
         # the harness process itself died (abort / stack overflow): that is a C05-type event
         cur = os.path.join(outdir, "current_case.txt")
@@ -320,7 +355,11 @@ def main():
 
     pr = proofs(prop, tier == "thorough")
     outdir = os.path.join(OUT, prop)
-    corr = run_correspondence(harness, prop, tier, seed, outdir)
+    drift = source_drift(prop)
+    scale = 4 if (drift and tier == "quick") else 1
+    if drift:
+        print(f"{prop}: anchored source differs from the pinned tree ({', '.join(drift)}): randomized budgets x{scale}")
+    corr = run_correspondence(harness, prop, tier, seed, outdir, scale)
 
     known, fixed = load_known(prop)
     violations = []       # (kind, case, detail, concrete: bool)
@@ -375,7 +414,7 @@ def main():
             oracle_violations=len(corr["stats"].get("violations", [])),
             known_findings_hit=len(known_hits),
             impl_hist=hist, gen_hist=corr["stats"].get("gen_hist", {}),
-            search=search_note,
+            search=search_note, source_drift=drift, budget_scale=scale,
         ),
         assumptions=meta["assumptions"], wall_s=round(wall, 2), violations=nviol,
     )
